@@ -1894,7 +1894,12 @@ func (c *Ctx) c09NoDetourAroundTheContext() {
 // recognise those. What a contextio constructor returns is therefore never handed out as it is: it is kept in a field of a
 // type of package safeio, and the methods of that type that return an error pass it through one of the package's converters.
 func (c *Ctx) c09ContextualAdaptersConvert() {
-	c.rule("A24", "what a contextio constructor returns is never handed out as it is: safeio keeps it in a field of one of its own types whose error-returning methods pass the error through ConvertIOError / ConvertContextError (directly or through safeReadFrom / safeCopy)", 2)
+	c.contextualAdaptersConvert("A24")
+}
+
+// contextualAdaptersConvert is the rule A24 reported as `rule` (C20/H10 evaluates it for the stream the hasher reads).
+func (c *Ctx) contextualAdaptersConvert(rule string) {
+	c.rule(rule, "what a contextio constructor returns is never handed out as it is: safeio keeps it in a field of one of its own types whose error-returning methods pass the error through ConvertIOError / ConvertContextError (directly or through safeReadFrom / safeCopy)", 2)
 	converts := func(cl *ssa.Call) bool {
 		n := calleeFull(&cl.Call)
 		for _, s := range []string{"safeio.ConvertIOError", "commonerrors.ConvertContextError", "safeio.safeReadFrom", "safeio.safeCopy"} {
@@ -1952,14 +1957,15 @@ func (c *Ctx) c09ContextualAdaptersConvert() {
 			follow(cl, 0)
 			switch {
 			case raw != "":
-				c.violate("A24", key, raw, "the reader / writer of the third-party contextio package is handed out (or used) as it is: once the context has ended its Read / Write answers the raw context.Canceled / context.DeadlineExceeded, which commonerrors.Any(err, ErrCancelled, ErrTimeout) does not recognise — the caller of the contextual reader cannot tell a cancellation from an I/O failure")
+				c.violate(rule, key, raw, "the reader / writer of the third-party contextio package is handed out (or used) as it is: once the context has ended its Read / Write answers the raw context.Canceled / context.DeadlineExceeded, which commonerrors.Any(err, ErrCancelled, ErrTimeout) does not recognise — the caller of the contextual reader cannot tell a cancellation from an I/O failure")
 				return
 			case holder == nil:
-				c.undecided("A24", key, c.ipos(cl), "where the value of the contextio constructor goes was not recognised")
+				c.undecided(rule, key, c.ipos(cl), "where the value of the contextio constructor goes was not recognised")
 				return
 			}
 			// the holder's methods that return an error convert it
 			bad := ""
+			ownMaking := ""
 			n := 0
 			for _, g := range c.srcFuncs("safeio") {
 				if g.Signature.Recv() == nil || g.Blocks == nil {
@@ -1986,6 +1992,18 @@ func (c *Ctx) c09ContextualAdaptersConvert() {
 						if isNilConst(l) {
 							continue
 						}
+						// the wrapped call's own error, handed on only where it was found nil: a converter takes it on the other side
+						if ex, ok := l.(*ssa.Extract); ok && isErrorType(ex.Type()) {
+							convertedWhenSet := false
+							allInstrs(g, func(j2 ssa.Instruction) {
+								if k, ok := j2.(*ssa.Call); ok && converts(k) && len(k.Call.Args) > 0 && k.Call.Args[0] == ssa.Value(ex) && onNonNilSide(ex, k) {
+									convertedWhenSet = true
+								}
+							})
+							if convertedWhenSet {
+								continue
+							}
+						}
 						if ex, ok := l.(*ssa.Extract); ok {
 							l = ex.Tuple
 						}
@@ -1993,16 +2011,26 @@ func (c *Ctx) c09ContextualAdaptersConvert() {
 							continue
 						}
 						bad = c.ipos(r)
+						if u, ok := l.(*ssa.UnOp); ok {
+							if g, ok := u.X.(*ssa.Global); ok {
+								ownMaking = g.Pkg.Pkg.Name() + "." + g.Name()
+							}
+						}
+						if isFreshError(l) {
+							ownMaking = "an error built on the spot"
+						}
 					}
 				})
 			}
 			switch {
 			case n == 0:
-				c.violate("A24", key, c.ipos(cl), "the type "+holder.Obj().Name()+" that keeps the contextio value has no method returning an error: nothing converts what the third-party reader / writer reports")
+				c.violate(rule, key, c.ipos(cl), "the type "+holder.Obj().Name()+" that keeps the contextio value has no method returning an error: nothing converts what the third-party reader / writer reports")
+			case bad != "" && ownMaking != "":
+				c.violate(rule, key, bad, "a method of "+holder.Obj().Name()+" answers an error of its own making ("+ownMaking+") that the reader / writer it wraps did not report: a read that delivers no bytes and no error — which the io.Reader contract allows and which is not the end of the data — ends the stream there; a copy stops at a prefix and reports success, and a digest computed from that stream is the digest of the prefix")
 			case bad != "":
-				c.violate("A24", key, bad, "a method of "+holder.Obj().Name()+" returns the error of the third-party reader / writer without passing it through the package's converters: the end of the context is reported as the raw context.Canceled / context.DeadlineExceeded, which is neither the 'cancelled' nor the 'timeout' kind")
+				c.violate(rule, key, bad, "a method of "+holder.Obj().Name()+" returns the error of the third-party reader / writer without passing it through the package's converters: the end of the context is reported as the raw context.Canceled / context.DeadlineExceeded, which is neither the 'cancelled' nor the 'timeout' kind")
 			default:
-				c.ok("A24", key, c.ipos(cl), "kept in "+holder.Obj().Name()+", whose "+strconv.Itoa(n)+" error-returning method(s) convert the error")
+				c.ok(rule, key, c.ipos(cl), "kept in "+holder.Obj().Name()+", whose "+strconv.Itoa(n)+" error-returning method(s) convert the error")
 			}
 		})
 	}
